@@ -137,7 +137,8 @@ def good_case(ctx, alg, iso, cfg, name, form):
             if any(g < 0 or g > d for g in grades):
                 return
             ctor = choice
-        names_sel = [alg.bin2canon[k] for k in alg.indices_for_grades[tuple(grades)]]
+        # blades of those grades in the order the basis lists them (derived from canon2bin, not from kingdon's grade index tables)
+        names_sel = [nm for nm in alg.canon2bin if len(nm) - 1 in grades]
         if form in ('convenience-kw',) and not graded:
             names_sel = rng.sample(names_sel, rng.randint(1, len(names_sel)))
     else:
